@@ -2614,6 +2614,8 @@ int bufr_load_csv_tableB( BUFR_Tables *tables, const char *filename )
    BufrTablesSet  *tbls;
 
    tbls = &(tables->master);
+   if (tbls->tableBtype == TYPE_REFERENCED) /* as in bufr_load_tableB */
+      tbls->tableB = NULL;
    tbls->tableBtype = TYPE_ALLOCATED;
    bufr_flush_tableB_cache( tables );
 
@@ -2673,6 +2675,8 @@ int bufr_load_csv_tableD( BUFR_Tables *tables, const char *filename )
    BufrTablesSet  *tbls;
 
    tbls = &(tables->master);
+   if (tbls->tableDtype == TYPE_REFERENCED) /* as in bufr_load_tableD */
+      tbls->tableD = NULL;
    tbls->tableDtype = TYPE_ALLOCATED;
 
    if (tbls->tableD == NULL)
